@@ -81,6 +81,11 @@ func (i *itemsValidator) Validate(index int, data interface{}) *Result {
 		}()
 	}
 
+	if data == nil {
+		// a nil value is not validated, as for parameters and headers (reflect.TypeOf(nil) is nil)
+		return nil
+	}
+
 	tpe := reflect.TypeOf(data)
 	kind := tpe.Kind()
 	var result *Result
